@@ -9,6 +9,7 @@ import (
 	"bytes"
 	"crypto/rand"
 	"crypto/sha256"
+	"errors"
 	"io"
 	"io/ioutil"
 	"log"
@@ -26,6 +27,7 @@ import (
 
 type c11Recorder struct {
 	nomask   bool
+	fail     bool // RoundTrip records the request and returns an error
 	seen     int
 	line     string
 	status   int
@@ -71,6 +73,9 @@ func (rt *c11Recorder) RoundTrip(req *http.Request) (*http.Response, error) {
 	}
 	rt.line = strings.Join([]string{c11x([]byte(req.Method)), c11x([]byte(req.URL.Scheme)), c11x([]byte(req.URL.Host)),
 		c11x([]byte(req.Host)), c11x([]byte(ep)), c11x([]byte(req.URL.RawQuery)), body}, ",")
+	if rt.fail {
+		return nil, errors.New("scripted transport error")
+	}
 	h := http.Header{}
 	if rt.location != "" {
 		h.Set("Location", rt.location)
@@ -128,6 +133,120 @@ func c11Armor(resp []byte) []byte {
 	return buf.Bytes()
 }
 
+// trailing empty elements and white space after </html>: ignored by the armor
+// decoder, counted by the limit (short tokens: the tokenizer's buffer is bounded)
+func c11PadBody(body []byte, size int) []byte {
+	if size > len(body) {
+		k := size - len(body)
+		body = append(body, bytes.Repeat([]byte("<i></i>"), k/7)...)
+		body = append(body, bytes.Repeat([]byte{' '}, k%7)...)
+	}
+	return body
+}
+
+type c11Exchanger interface {
+	Exchange([]byte) ([]byte, error)
+}
+
+// seq <h|a> <broker> <cache|n> <front> <bf> <cf|n> <ou> <pre> <oa> <sha> <ev;ev;...>
+// ev = <poll>:<cache breaker>:<status|e>:<location>:<response>:<bodysize>:<armored length>
+// ONE rendezvous object makes all the Exchanges, in order.  After each of them a NEW object with the same
+// configuration makes the same Exchange: "first=same" when the two requests are the same, else the new object's.
+func c11Seq(a []string) string {
+	broker := string(c11Payload(a[2]))
+	bu, err := url.Parse(broker)
+	if err != nil {
+		return "!parse"
+	}
+	cache := ""
+	cf := "n"
+	if a[3] != "n" {
+		cache = string(c11Payload(a[3]))
+		cu, err := url.Parse(cache)
+		if err != nil {
+			return "!parse"
+		}
+		cf = c11CacheFields(cu)
+	}
+	front := string(c11Payload(a[4]))
+	h := sha256.Sum256([]byte(bu.Hostname()))
+	if c11BrokerFields(bu) != a[5] || cf != a[6] || c11Opt(idna.ToUnicode(bu.Hostname())) != a[7] || c11x(h[:]) != a[10] {
+		return "!oracle-mismatch"
+	}
+	if a[8] != "n" && c11Opt(idna.ToASCII(string(c11Payload(a[8])))) != a[9] {
+		return "!oracle-mismatch"
+	}
+	isHTTP := a[1] == "h"
+	mk := func(rt *c11Recorder) c11Exchanger {
+		if isHTTP {
+			r, err := newHTTPRendezvous(broker, front, rt)
+			if err != nil {
+				return nil
+			}
+			return r
+		}
+		r, err := newAMPCacheRendezvous(broker, cache, front, rt)
+		if err != nil {
+			return nil
+		}
+		return r
+	}
+	shared := &c11Recorder{nomask: true}
+	obj := mk(shared)
+	if obj == nil {
+		return "!construct"
+	}
+	old := rand.Reader
+	defer func() { rand.Reader = old }()
+	var out []string
+	for _, e := range strings.Split(a[11], ";") {
+		f := strings.Split(e, ":")
+		if len(f) != 7 {
+			return "!badcase"
+		}
+		poll, cb, resp := c11Payload(f[0]), c11Payload(f[1]), c11Payload(f[4])
+		size, _ := strconv.Atoi(f[5])
+		alen, _ := strconv.Atoi(f[6])
+		body := resp
+		if !isHTTP {
+			body = c11Armor(resp)
+			if alen != len(body) {
+				return "!oracle-mismatch"
+			}
+			body = c11PadBody(body, size)
+		}
+		script := func(rt *c11Recorder) {
+			rt.seen, rt.line = 0, ""
+			rt.fail = f[2] == "e"
+			rt.status, _ = strconv.Atoi(f[2])
+			rt.location = ""
+			if f[3] == "1" {
+				rt.location = "https://origin.example/amp/client/"
+			}
+			rt.body = body
+		}
+		script(shared)
+		rand.Reader = bytes.NewReader(cb)
+		d, err := obj.Exchange(append([]byte(nil), poll...))
+		res := c11Result(shared, resp, d, err)
+		fresh := &c11Recorder{nomask: true}
+		script(fresh)
+		fobj := mk(fresh)
+		if fobj == nil {
+			return "!construct"
+		}
+		rand.Reader = bytes.NewReader(cb)
+		fobj.Exchange(append([]byte(nil), poll...))
+		if fresh.seen == shared.seen && fresh.line == shared.line {
+			res += " first=same"
+		} else {
+			res += " first=" + strings.TrimPrefix(strings.SplitN(c11Result(fresh, nil, nil, errors.New("x")), " ", 2)[0], "req=")
+		}
+		out = append(out, res)
+	}
+	return strings.Join(out, " | ")
+}
+
 func c11Result(rt *c11Recorder, served []byte, d []byte, err error) string {
 	req := "req=none"
 	if rt.seen == 1 {
@@ -171,6 +290,11 @@ func c11Case(a []string) string {
 		return strconv.Itoa(len(c11Armor(c11Payload(a[1]))))
 	case "limit":
 		return strconv.Itoa(readLimit)
+	case "seq":
+		if len(a) != 12 {
+			return "!badcase"
+		}
+		return c11Seq(a)
 	case "http":
 		// http <broker> <front> <data> <status> <resp> <brokerfields>
 		broker := string(c11Payload(a[1]))
@@ -222,13 +346,7 @@ func c11Case(a []string) string {
 		if alen != len(body) {
 			return "!oracle-mismatch"
 		}
-		if size > len(body) {
-			// trailing empty elements and white space after </html>: ignored by the armor
-			// decoder, counted by the limit (short tokens: the tokenizer's buffer is bounded)
-			k := size - len(body)
-			body = append(body, bytes.Repeat([]byte("<i></i>"), k/7)...)
-			body = append(body, bytes.Repeat([]byte{' '}, k%7)...)
-		}
+		body = c11PadBody(body, size)
 		rt := &c11Recorder{status: status, body: body}
 		if a[6] == "1" {
 			rt.location = "https://origin.example/amp/client/"
